@@ -51,11 +51,12 @@ var mains = map[string]func(){
 // CmdSpec is one simulated execution of a command, run in a child process of its own: option
 // parsing writes package-level variables, so no two commands share a process.
 type CmdSpec struct {
-	Name   string   `json:"name"`
-	Args   []string `json:"args"`
-	Dir    string   `json:"dir"`
-	Stdin  string   `json:"stdin"`  // file redirected to fd 0 ("" = /dev/null)
-	Stdout string   `json:"stdout"` // file that receives os.Stdout ("" = <dir>/stdout)
+	Name       string   `json:"name"`
+	Args       []string `json:"args"`
+	Dir        string   `json:"dir"`
+	Stdin      string   `json:"stdin"`       // file redirected to fd 0 ("" = /dev/null)
+	Stdout     string   `json:"stdout"`      // file that receives os.Stdout ("" = <dir>/stdout)
+	StderrNull bool     `json:"stderr_null"` // os.Stderr is /dev/null (a character device, as a terminal is: progress bars are then active) instead of a file
 	// StdinFailAfter >= 0 (with StdinData): fd 0 is a socket that delivers StdinFailAfter bytes
 	// of StdinData and then fails with ECONNRESET - a real read(2) error on standard input
 	StdinFailAfter int    `json:"stdin_fail_after"`
@@ -159,7 +160,11 @@ func SubCmdMain(t *testing.T) {
 	if err != nil {
 		t.Fatal(err)
 	}
-	ferr, err := os.Create(filepath.Join(spec.Dir, "stderr"))
+	errName := filepath.Join(spec.Dir, "stderr")
+	if spec.StderrNull {
+		errName = os.DevNull
+	}
+	ferr, err := os.OpenFile(errName, os.O_WRONLY|os.O_CREATE|os.O_TRUNC, 0644)
 	if err != nil {
 		t.Fatal(err)
 	}
